@@ -644,6 +644,9 @@ int main(void)
 	for (i = 0; i < NROOT; i++)
 		root_opts[i].nvalues = 0;
 	O = &root_opts[kind_index[KIND]];
+#ifdef KV_SUBOPTS
+	root_opts[14].subopts = sub_opts; /* a free-form section that also declares sub-options with defaults */
+#endif
 #ifdef NAMEROOT
 	O->name = "root"; /* a section option that happens to be called like the top-level context */
 #endif
@@ -743,6 +746,13 @@ int main(void)
 		/* names that contain the path metacharacters are resolved as paths (C11): outside this claim */
 		for (i = 0; i < NTOK; i++)
 			V_ASSUME(vin_tok[i] != '|' && vin_tok[i] != '=');
+#ifdef PATHNAME
+		/* ... except this shaped one: "c|X", a path key into the single section "c" (X symbolic): the item is
+		 * looked up through the path resolver; an unknown leaf is reported against the context being scanned */
+		V_ASSUME(vin_tok[2] != 0);
+		vin_tok[0] = 'c';
+		vin_tok[1] = '|';
+#endif
 	}
 
 	ctx = &root;
